@@ -1,8 +1,32 @@
 import Ypv.Drv.Codec
-/-! Driver handler for C13 (stub: replaced by the module that models C13) -/
+import Ypv.Model.Keyword
+/-! Driver handler for C13: keyword searches at a node of a document, the parameter splitter. -/
 namespace Ypv.Drv.C13
 open Lean (Json)
+open Ypv Ypv.Drv
 
-def handle (_op : String) (_j : Json) : Except String Json := throw "C13: driver not implemented yet"
+def outToJson : Except Err KwOut → Json
+  | .ok (.nodes as) => Json.mkObj [("nodes", Json.arr (as.map addrToJson).toArray)]
+  | .ok (.name r) => Json.mkObj [("name", match r with | some r => refToJson r | none => Json.null)]
+  | .error e => Json.mkObj [("err", errToJson e)]
+
+def handle (op : String) (j : Json) : Except String Json := do
+  match op with
+  | "kw" =>
+    -- {"doc": node, "at": addr, "inv": bool, "kw": KEYWORD, "params": raw text}
+    let doc ← nodeOfJson (← j.getObjVal? "doc")
+    let at_ ← addrOfJson (← j.getObjVal? "at")
+    let inv ← getBool j "inv"
+    let kw ← keywordOfName (← getStr j "kw")
+    let params := s2l (← getStr j "params")
+    match doc.get? at_ with
+    | none => throw "C13.kw: address not in document"
+    | some data => pure (Json.mkObj [("model", outToJson (kwSearch data at_ inv kw params))])
+  | "split" =>
+    let params := s2l (← getStr j "params")
+    match splitParams params with
+    | .ok ps => pure (Json.mkObj [("ok", Json.arr (ps.map (fun p => Json.str (l2s p))).toArray)])
+    | .error e => pure (Json.mkObj [("err", errToJson e)])
+  | _ => throw s!"C13: unknown op {op}"
 
 end Ypv.Drv.C13
